@@ -808,7 +808,7 @@ func runC12(c *hc.Ctx) error {
 		cases = []c12Case{k}
 	} else {
 		cases = append(cases, c12RegressionF9(0))
-		reps := c.N(10, 60)
+		reps := c.N(10, 150)
 		if c.Search {
 			reps *= 4
 		}
